@@ -85,6 +85,7 @@ type Tr struct {
 	stableCallee *ssa.Function
 	havocCallee *ssa.Function
 	privateRegs []*Term
+	privateMaps []privMap
 	typeFactCache map[string]bool
 	curBind   []Val // bindings of the closure currently being called by contract
 }
@@ -887,6 +888,10 @@ func (tr *Tr) instr(fr *Frame, in ssa.Instruction) {
 		id := tr.allocRegion(fr.st)
 		tr.mapInit(fr.st, x.Type(), id)
 		fr.env[x] = Val{id}
+		if privateMap(x) && tr.mapDecl(x.Type()) {
+			// a map that only this function looks up, updates, ranges over or measures: unknown callees cannot change it
+			tr.privateMaps = append(tr.privateMaps, privMap{prefix: mapComp(x.Type(), ""), id: id})
+		}
 	case *ssa.MakeChan:
 		fr.env[x] = Val{tr.allocRegion(fr.st)}
 		tr.note("channel")
@@ -1510,6 +1515,42 @@ func (tr *Tr) typeFrameCheck(fr *Frame, pos token.Pos, root ssa.Value, reg *Term
 			}
 		}
 	}
+}
+
+type privMap struct {
+	prefix string // component name prefix of the map's type ("M.<type>.")
+	id     *Term
+}
+
+// privateMap: the map value made here is used only as the operand of lookups, updates, delete, len and range in this
+// function (never stored, passed, returned, captured or converted), so no other code holds a reference to it.
+func privateMap(m *ssa.MakeMap) bool {
+	refs := m.Referrers()
+	if refs == nil {
+		return true
+	}
+	for _, r := range *refs {
+		switch x := r.(type) {
+		case *ssa.DebugRef:
+		case *ssa.Lookup:
+			if x.X != ssa.Value(m) {
+				return false
+			}
+		case *ssa.MapUpdate:
+			if x.Map != ssa.Value(m) || x.Key == ssa.Value(m) || x.Value == ssa.Value(m) {
+				return false
+			}
+		case *ssa.Range:
+		case *ssa.Call:
+			b, ok := x.Call.Value.(*ssa.Builtin)
+			if !ok || (b.Name() != "delete" && b.Name() != "len" && b.Name() != "clear") {
+				return false
+			}
+		default:
+			return false
+		}
+	}
+	return true
 }
 
 // privateAlloc: the cell's address is only loaded from, stored to, projected, or captured by closures that this function
